@@ -165,3 +165,74 @@ Proof.
   intros. split; [|vm_compute; reflexivity].
   eexists. split; [vm_compute; reflexivity|]. split; vm_compute; reflexivity.
 Qed.
+
+(* ------------------------------------------------------------------ POLL BY POLL (Model/ScanBatches.v)
+   [select_polls]: BuildPlan, then every Next() / Batch() call of the final plan run on its own;
+   result = (calls of BuildPlan, [(calls of poll i, rows returned by poll i)]), the last poll
+   being the one that returned nothing.  From ANY storage state (data, earlier log, fault index):
+   the concatenation of the per-poll logs is run_stmt's log, the non-zero row counts are its
+   sizes, and an error of a poll is the statement's error -- so [fault_surfaces] and
+   [select_read_only] speak about every single poll. *)
+From KV Require Import Model.ScanBatches Proofs.ScanBatchBoundaryProofs Proofs.RunCountsProofs.
+
+Theorem select_polls_is_run_stmt :
+  forall (remember_end : bool) (flt : kvp -> bool) (gkey : kvp -> bytes) (B fuel : nat) (m : mode)
+         (fp : fplan) (s : sstate),
+  match select_polls remember_end flt gkey B fuel m fp s with
+  | (Storage.Ok (b, ps), s') =>
+      ScanIO.run_stmt remember_end flt gkey B fuel m (StSelect fp) s = (Storage.Ok (sizes_of ps), s') /\
+      slog s' = slog s ++ b ++ List.concat (map fst ps)
+  | (Storage.Err e, s') =>
+      ScanIO.run_stmt remember_end flt gkey B fuel m (StSelect fp) s = (Storage.Err e, s')
+  end.
+Proof. exact select_polls_is_run_stmt_lemma. Qed.
+Print Assumptions select_polls_is_run_stmt.
+
+(* C13 for the TEXT, every SELECT shape (projection / ORDER BY / LIMIT / aggregate) and every
+   rejected text: with the i-th storage call failing the statement returns the storage error
+   and its log is exactly the first i+1 calls of the fault-free run, or call i is never reached
+   and the run IS the fault-free run; the data is unchanged and no call mutates, in both runs *)
+Theorem select_text_fault_surfaces :
+  forall (fo : fops) (re : bytes -> bytes -> Value.res bool) (fmt_v : F fo -> string)
+         (remember_end : bool) (flt : kvp -> bool) (gkey : kvp -> bytes) (B fuel : nat) (m : mode)
+         (q : string) (s : ScanIO.stmt) (st : store) (i : nat),
+  text_stmt fo re fmt_v q = Some s ->
+  let free := ScanIO.run_stmt remember_end flt gkey B fuel m s (sinit st None) in
+  let faulty := ScanIO.run_stmt remember_end flt gkey B fuel m s (sinit st (Some i)) in
+  fault_outcome i free faulty /\
+  sdata (snd faulty) = st /\ read_only (slog (snd faulty)) = true /\
+  sdata (snd free) = st /\ read_only (slog (snd free)) = true.
+Proof. exact select_text_fault_surfaces_lemma. Qed.
+Print Assumptions select_text_fault_surfaces.
+
+(* non-vacuity: ORDER BY + LIMIT over a prefix scan; the 7th call (index 6, the third Next) fails:
+   storage error, 7 calls, the first 7 of the fault-free run's 8; fault index 8 is never reached *)
+Example select_text_fault_surfaces_nonvacuous :
+  forall (fo : fops) (re : bytes -> bytes -> Value.res bool) (fmt_v : F fo -> string),
+  let q := "select key, value where key ^= 'a' order by value desc limit 1, 1" in
+  let d := [("a","1");("ab","2");("abc","3");("b","4")] in
+  exists fp, text_stmt fo re fmt_v q = Some (StSelect fp) /\
+    fp = FLimit 1 1 (FOrder (FProj (PScan (SPrefix "a")))) /\
+    ScanIO.run_stmt true (fun _ => true) snd 2 20 BatchMode (StSelect fp) (sinit d None)
+    = (Storage.Ok [1], SState d [CCursor; CSeek "a"; CCursor; CSeek "a"; CNext (Some "a"); CNext (Some "ab");
+                                 CNext (Some "abc"); CNext (Some "b")] None) /\
+    ScanIO.run_stmt true (fun _ => true) snd 2 20 BatchMode (StSelect fp) (sinit d (Some 6))
+    = (Storage.Err EStorage, SState d [CCursor; CSeek "a"; CCursor; CSeek "a"; CNext (Some "a"); CNext (Some "ab");
+                                       CNext (Some "abc")] (Some 6)) /\
+    fst (ScanIO.run_stmt true (fun _ => true) snd 2 20 BatchMode (StSelect fp) (sinit d (Some 8))) = Storage.Ok [1].
+Proof.
+  intros. eexists. split; [vm_compute; reflexivity|]. split; [reflexivity|].
+  split; [vm_compute; reflexivity|]. split; vm_compute; reflexivity.
+Qed.
+
+(* non-vacuity of the poll-by-poll view: the same statement; BuildPlan issues the four Init calls,
+   the first Batch() drains the scan (FinalOrderPlan.prepareBatch: two Batch() of the scan node,
+   the second one sees the end) and returns the one row of the window, the second Batch() returns
+   nothing and makes no storage call *)
+Example select_polls_nonvacuous :
+  let d := [("a","1");("ab","2");("abc","3");("b","4")] in
+  select_polls true (fun _ => true) snd 2 20 BatchMode (FLimit 1 1 (FOrder (FProj (PScan (SPrefix "a"))))) (sinit d None)
+  = (Storage.Ok ([CCursor; CSeek "a"; CCursor; CSeek "a"],
+                 [([CNext (Some "a"); CNext (Some "ab"); CNext (Some "abc"); CNext (Some "b")], 1); ([], 0)]),
+     SState d [CCursor; CSeek "a"; CCursor; CSeek "a"; CNext (Some "a"); CNext (Some "ab"); CNext (Some "abc"); CNext (Some "b")] None).
+Proof. vm_compute. reflexivity. Qed.
